@@ -1,7 +1,8 @@
 //! C11 reference model of IP reassembly (written from RFC 791 §3.2 / RFC 8200 §4.5 and the
 //! documentation of `etherparse::defrag`): per stream the set of filled byte ranges, the announced
-//! end and the generation of the data; plus the bookkeeping of what is *not* documented (state after
-//! an error, which timestamp `retain` judges), where the model stops predicting ("loose").
+//! end and the generation of the data; plus the bookkeeping of what is *not* documented (ambiguous
+//! ends, which timestamp `retain` judges), where the model stops predicting ("loose"). A rejected
+//! fragment leaves the state untouched and the model strict.
 
 use std::collections::BTreeSet;
 
